@@ -58,6 +58,10 @@ type RSRogue struct {
 }
 
 type RSBody struct {
+	// Short: holds of a few seconds taken through the leader of the moment shortly before a fault (Member is
+	// ignored), so that their deadlines pass on the other members while nobody leads (C10: a member that is
+	// voting or being reconfigured does not end a replicated hold on its own clock either)
+	Short    []RSRogue  `json:"short,omitempty"`
 	Rogue    []RSRogue  `json:"rogue,omitempty"`
 	Members  []RSMember `json:"members"`
 	Faults   []RSFault  `json:"faults"`
@@ -202,6 +206,25 @@ func genReplset(prop string, seed uint64, tier string) *Scenario {
 			body.Rogue = append(body.Rogue, RSRogue{AtMs: at, Member: rg.Intn(n), Op: o})
 		}
 		sort.Slice(body.Rogue, func(a, b int) bool { return body.Rogue[a].AtMs < body.Rogue[b].AtMs })
+	}
+	if sh := ssched.Sub(seed, "shortholds"); sh.Intn(2) == 0 {
+		// a generator of its own (the requests drawn above stay what they were)
+		i := 0
+		for _, f := range body.Faults {
+			if f.Kind != "kill_leader" && f.Kind != "split" {
+				continue
+			}
+			for k, n := 0, 2+sh.Intn(4); k < n; k++ {
+				i++
+				at := f.AtMs - 100 - sh.Intn(1900)
+				if at < 0 {
+					at = 0
+				}
+				o := OpSpec{Cmd: 1, Key: 110 + i, Lid: 500 + i, Expried: uint16(1 + sh.Intn(7)), EFlag: efAof0, Count: 0}
+				body.Short = append(body.Short, RSRogue{AtMs: at, Op: o})
+			}
+		}
+		sort.Slice(body.Short, func(a, b int) bool { return body.Short[a].AtMs < body.Short[b].AtMs })
 	}
 	raw, _ := json.Marshal(body)
 	k := genKnobs(r)
@@ -463,6 +486,9 @@ func runReplset(w *World) {
 		}
 		// C10: the lock state guarded by a shard mutex is changed by the task that holds it; on a
 		// member that is not the leader no such change may come from serving a client
+		if m.node.sl.state == STATE_LEADER {
+			m.everLeader = true
+		}
 		if pm := shardOf(m.node.sl, mu); pm != nil {
 			sig := shardLockSig(m.node.sl, pm)
 			old, seen := lastSig[pm]
@@ -475,6 +501,11 @@ func runReplset(w *World) {
 				}
 				if cls == "client" {
 					w.violate("C10", "non_leader_decided", "member %s (node n%d, state %d) changed its lock state while serving a client: %s => %s [%s]", m.host, m.node.id, m.node.sl.state, old, sig, stack)
+				}
+				// a member that has never led holds nothing but replicated holds: in no state (follower, syncing,
+				// voting, reconfiguring) may its own sweepers end one of them or time a request out
+				if (cls == "expiry_sweeper" || cls == "timeout_sweeper") && !m.everLeader {
+					w.violate("C10", "non_leader_"+cls+"_changed_state", "member %s (node n%d, state %d, never a leader in this run) changed its lock state on its own clock: %s => %s [%s]", m.host, m.node.id, m.node.sl.state, old, sig, stack)
 				}
 			}
 		}
@@ -682,6 +713,29 @@ func runReplset(w *World) {
 				c.Close()
 			}
 		})
+		if len(body.Short) > 0 {
+			ssched.SpawnOn(0, "rs-short", func() {
+				for i, sh := range body.Short {
+					at(sh.AtMs)
+					if done {
+						break
+					}
+					l := leaderOf()
+					if l == nil || !live(l) || !l.node.ready {
+						continue
+					}
+					c, err := newBinClient(w, h, l.host, 2)
+					if err != nil {
+						continue
+					}
+					rec := h.invoke(2, 2000+i, sh.Op)
+					if c.Send(rec) == nil && waitReply(rec, 5*time.Second) && rec.Replies[0].Result == protocol.RESULT_SUCCED {
+						w.probe("short_holds_before_fault")
+					}
+					c.Close()
+				}
+			})
+		}
 		fdone := 0
 		for _, f := range body.Faults {
 			f := f
